@@ -17,12 +17,12 @@ package beaconblock
 
 import (
 	"bufio"
-	"os"
-	"runtime/pprof"
 	"context"
 	"encoding/hex"
 	"errors"
 	"fmt"
+	"os"
+	"runtime/pprof"
 	"sort"
 	"strings"
 	"sync"
@@ -31,6 +31,7 @@ import (
 	"github.com/protolambda/zrnt/eth2/beacon/common"
 	"github.com/protolambda/zrnt/eth2/configs"
 	"github.com/protolambda/ztyp/tree"
+	"github.com/protolambda/ztyp/view"
 
 	"verifharness/internal/chain"
 	"verifharness/internal/flat"
@@ -52,6 +53,13 @@ type chainPlan struct {
 	seed       int64
 }
 
+// sweep returns cfg with another MAX_VALIDATORS_PER_WITHDRAWALS_SWEEP.
+func sweep(cfg *chain.Config, n uint64) *chain.Config {
+	cfg.Spec.MAX_VALIDATORS_PER_WITHDRAWALS_SWEEP = view.Uint64View(n)
+	cfg.ID += fmt.Sprintf("+sweep%d", n)
+	return cfg
+}
+
 func plans(o hreg.Opts) []chainPlan {
 	rng := o.Rand()
 	N := chain.Never
@@ -67,6 +75,11 @@ func plans(o hreg.Opts) []chainPlan {
 		add(chain.Fast(0, 1, N, N), 32, "rich", 32)
 		add(chain.Fast(0, 0, 1, 3), 48, "poor", 40)
 		add(chain.Fast(0, 0, 0, N), 48, "rich", 28)
+		// registries SMALLER than MAX_VALIDATORS_PER_WITHDRAWALS_SWEEP and not dividing it (the sweep cursor wraps
+		// around the registry more than once): capella and deneb
+		add(sweep(chain.Fast(0, 0, 0, N), 16), 12, "rich", 20)
+		add(sweep(chain.Fast(0, 0, 0, 0), 16), 13, "rich", 20)
+		add(sweep(chain.Fast(0, 0, 0, 1), 20), 11, "rich", 20)
 		add(chain.Fast(0, N, N, N), 32, "mixed", 24)
 		add(chain.MinimalAt(1, 2, 3, 4), 64, "uniform", 44)
 		add(chain.RandomConfig(rng.Int63n(1<<30)), 48, "mixed", 32)
@@ -81,6 +94,10 @@ func plans(o hreg.Opts) []chainPlan {
 	add(chain.Fast(0, 0, N, N), 64, "poor", 64)
 	add(chain.Fast(0, 0, 0, N), 64, "rich", 64)
 	add(chain.Fast(0, 0, 0, 0), 128, "mixed", 64)
+	add(sweep(chain.Fast(0, 0, 0, N), 16), 12, "rich", 48)
+	add(sweep(chain.Fast(0, 0, 0, 0), 16), 13, "rich", 48)
+	add(sweep(chain.Fast(0, 0, 0, 1), 20), 11, "mixed", 48)
+	add(sweep(chain.Fast(0, 0, 0, 0), 24), 20, "rich", 48)
 	add(chain.MinimalAt(1, 2, 3, 4), 64, "mixed", 64)
 	add(chain.Minimal(), 64, "mixed", 48)
 	for i := 0; i < 12; i++ {
@@ -333,10 +350,13 @@ func genChain(o hreg.Opts, p chainPlan, mutants bool) (out seqOut) {
 		} else {
 			// the chain library would heal every mutant it makes (one more real run each); only a sample is used
 			// here, and the sampled re-signed mutants are healed in emitOn
+			// the unmutated block too: "Go = S's post-state whenever S accepts" starts with the block itself
+			pr := [32]byte(step.PostRoot)
+			emit("valid:"+fork, step.Block, "valid", &pr)
 			c.NoHealMutants = true
 			ms := c.Mutations(step, perKind)
 			own := map[string]bool{}
-			ownMs := extraMutants(c, step, rng)
+			ownMs := extraMutants(c, step, fs, rng)
 			for i := range ownMs {
 				own[ownMs[i].Label] = true
 			}
